@@ -299,9 +299,11 @@ def check_crops(ctx, cases, prop, origin="generated"):
             # net of greenhouses, in both branches, from the implementation's own arrays
             if c["ADD_OUTDOOR_GROWING"]:
                 want = []
+                total = c["INITIAL_GLOBAL_CROP_AREA"] * c["INITIAL_CROP_AREA_FRACTION"]
                 for i in range(n):
                     g = impl["grown"][i] if (c["OG_USE_BETTER_ROTATION"] and i >= hd) else impl["noReloc"][i]
-                    want.append(g * (1 - frac[i]) * (1 - w / 100))
+                    occupied = area[i] / total if total != 0 else 0.0  # fraction of cropland under greenhouses, from the area itself
+                    want.append(g * (1 - occupied) * (1 - w / 100))
                 if not tol_close(impl["production"], want):
                     i = next(j for j, (x, y) in enumerate(zip(impl["production"], want)) if not tol_close([x], [y], scale=max(map(abs, want))))
                     ctx.violation(net_key(impl["production"], want, w), "month %d: outdoor production %r, grown x (1 - greenhouse fraction) x (1 - waste) = %r"
@@ -648,6 +650,32 @@ OPTION_VALUES = {
 }
 
 
+def iso_of(row):
+    return "WOR" if row is None else row["iso3"]
+
+
+WORLD_OPTION = dict(BASE_OPTION, scale="global", seasonality="nuclear_winter_globally", grasses="global_nuclear_winter",
+                    crop_disruption="global_nuclear_winter", waste="doubled_prices_globally")
+WORLD_VALUES = {"scenario": SCENARIOS, "seasonality": ["no_seasonality", "baseline_globally", "nuclear_winter_globally"],
+                "grasses": ["baseline", "global_nuclear_winter"], "crop_disruption": ["zero", "global_nuclear_winter"],
+                "waste": ["zero", "tripled_prices_globally", "doubled_prices_globally", "baseline_globally"],
+                "fish": OPTION_VALUES["fish"], "stored_food": OPTION_VALUES["stored_food"], "shutoff": OPTION_VALUES["shutoff"],
+                "ratio_stocks_untouched": OPTION_VALUES["ratio_stocks_untouched"]}
+
+
+def gen_world_options(rng, k):
+    """option sets of the world aggregate (scale: global)"""
+    opts = []
+    for j in range(k):
+        o = dict(WORLD_OPTION)
+        for fam, vals in WORLD_VALUES.items():
+            if rng.random() < 0.5 or fam == "scenario":
+                o[fam] = rng.choice(vals)
+        o["NMONTHS"] = rng.choice([120, 120, 48, 72, 96])
+        opts.append(o)
+    return opts
+
+
 def country_rows(ctx):
     import pandas as pd
     df = pd.read_csv("data/no_food_trade/computer_readable_combined.csv")
@@ -684,6 +712,11 @@ def first_round(ctx, option, row):
             super().__init__(*a, **k)
             cap["gh"] = self
 
+        def get_greenhouse_area(self, *a, **k):
+            r = super().get_greenhouse_area(*a, **k)
+            cap["gh_area"] = [float(x) for x in r]
+            return r
+
     class MD2(MD):
         def __init__(self, *a, **k):
             super().__init__(*a, **k)
@@ -696,7 +729,7 @@ def first_round(ctx, option, row):
     pm.MeatAndDairy, pm.FeedAndBiofuels, pm.Greenhouses = MD2, FB2, GH2
     try:
         with ctx.quiet(), np.errstate(all="ignore"):
-            c, tc, sl = ScenarioRunner().set_depending_on_option(dict(option), country_data=row)
+            c, tc, sl = ScenarioRunner().set_depending_on_option(dict(option), country_data=row)  # row None = world aggregate
             cin = copy.deepcopy(c)
             out = pm.Parameters().compute_parameters_first_round(c, tc, sl)
     finally:
@@ -713,9 +746,9 @@ def check_real_rows(ctx, rows, options, prop):
                 cin, tc, out, cap = first_round(ctx, o, row)
             except tuple(ERR) as e:
                 ctx.count("rows:first-round-%s" % ERR[type(e)])
-                case = {"series": "row", "iso3": row["iso3"], "option": o}
+                case = {"series": "row", "iso3": iso_of(row), "option": o}
                 if prop == "C08":
-                    ctx.violation("first-round-rejected", "compute_parameters_first_round failed for %s: %s %s" % (row["iso3"], type(e).__name__, str(e)[:100]), case)
+                    ctx.violation("first-round-rejected", "compute_parameters_first_round failed for %s: %s %s" % (iso_of(row), type(e).__name__, str(e)[:100]), case)
                 continue
             jobs.append((row, o, cin, tc, out, cap))
     if not jobs:
@@ -753,13 +786,18 @@ def check_real_rows(ctx, rows, options, prop):
     for j, (row, o, cin, tc, out, cap) in enumerate(jobs):
         n = cin["NMONTHS"]
         consts, time_consts = out[0], out[1]
-        case = {"series": "row", "iso3": row["iso3"], "option": o}
-        ctx.case(("row", row["iso3"], repr(sorted(o.items()))), True, {"iso3": row["iso3"], "scenario": o["scenario"], "NMONTHS": n})
+        iso = iso_of(row)
+        case = {"series": "row", "iso3": iso, "option": o}
+        ctx.case(("row", iso, repr(sorted(o.items()))), True, {"iso3": iso, "scenario": o["scenario"], "NMONTHS": n})
         ctx.count("rows:scenario-%s" % o["scenario"])
+        ctx.count("rows:%s" % ("world" if row is None else "country"))
         # the opaque pieces of the country initialiser
-        want_season = [float(row["seasonality_m%d" % (i + 1)]) for i in range(12)]
-        if o["seasonality"] == "country" and [float(x) for x in cin["SEASONALITY"]] != want_season:
-            ctx.violation("seasonality-columns", "SEASONALITY is not the twelve seasonality_m columns in calendar order", case)
+        if row is not None:
+            want_season = [float(row["seasonality_m%d" % (i + 1)]) for i in range(12)]
+            if o["seasonality"] == "country" and [float(x) for x in cin["SEASONALITY"]] != want_season:
+                ctx.violation("seasonality-columns", "SEASONALITY is not the twelve seasonality_m columns in calendar order", case)
+            if {str(k): float(row["seaweed_growth_per_day_%d" % k]) for k in range(-3, 117)} != {k: float(v) for k, v in cin["SEAWEED_GROWTH_PER_DAY"].items()}:
+                ctx.violation("seaweed-columns", "SEAWEED_GROWTH_PER_DAY is not the seaweed_growth_per_day_<k> columns keyed by k", case)
         model = parse_crops(crops_out[j])
         oc = time_consts["outdoor_crops"]
         prod = [float(x) for x in oc.production.kcals]
@@ -778,15 +816,16 @@ def check_real_rows(ctx, rows, options, prop):
             if cin["ADD_OUTDOOR_GROWING"]:
                 hd = cin["INITIAL_HARVEST_DURATION_IN_MONTHS"] + cin["DELAY"]["ROTATION_CHANGE_IN_MONTHS"]
                 w = cin["WASTE_DISTRIBUTION"]["CROPS"]
-                fr = [float(x) for x in cap["gh"].greenhouse_fraction_area]  # the implementation's own fraction
-                if not tol_close(fr, model["fraction"]):
-                    ctx.disagree("row.greenhouse-fraction", case, fr[:50], model["fraction"][:50])
+                total = cin["INITIAL_GLOBAL_CROP_AREA"] * cin["INITIAL_CROP_AREA_FRACTION"]
+                fr = [a / total if total != 0 else 0.0 for a in cap["gh_area"]]  # share of cropland the implementation's greenhouse area occupies
+                if not tol_close([float(x) for x in cap["gh"].greenhouse_fraction_area], model["fraction"]):
+                    ctx.disagree("row.greenhouse-fraction", case, [float(x) for x in cap["gh"].greenhouse_fraction_area][:50], model["fraction"][:50])
                 want = [(oc.KCALS_GROWN[i] if (cin["OG_USE_BETTER_ROTATION"] and i >= hd) else oc.NO_RELOCATION_KCALS_GROWN[i]) * (1 - fr[i]) * (1 - w / 100)
                         for i in range(n)]
                 if not tol_close(prod, want):
                     i = next(jj for jj, (x, y) in enumerate(zip(prod, want)) if not tol_close([x], [y], scale=max(map(abs, want))))
                     ctx.violation(net_key(prod, want, w),
-                                  "%s month %d: outdoor production %r, grown x (1 - greenhouse fraction) x (1 - waste) = %r" % (row["iso3"], i, prod[i], want[i]), case)
+                                  "%s month %d: outdoor production %r, grown x (1 - greenhouse fraction) x (1 - waste) = %r" % (iso, i, prod[i], want[i]), case)
             continue
         o9 = other_out[j * 9:(j + 1) * 9]
         fish = [float(x) for x in time_consts["fish"].to_humans.kcals]
@@ -836,8 +875,9 @@ def check_real_rows(ctx, rows, options, prop):
         mg = Reader(o9[7]).floats()
         if not tol_close(growth, mg):
             ctx.disagree("row.seaweed-growth", case, growth[:12], mg[:12])
-        want = [100 * (float(row["seaweed_growth_per_day_%d" % k]) / 100 + 1) ** 30 for k in range(-3, 117)]
-        series_clauses(ctx, "seaweed-growth", growth, n, want, case, expect_len=120)
+        gk = sorted(int(k) for k in cin["SEAWEED_GROWTH_PER_DAY"])
+        want = [100 * (float(cin["SEAWEED_GROWTH_PER_DAY"][str(k)]) / 100 + 1) ** 30 for k in gk]
+        series_clauses(ctx, "seaweed-growth", growth, n, want, case, expect_len=len(gk))
         stored = consts["stored_food"].initial_available.kcals
         if cin["ADD_STORED_FOOD"]:
             rd = Reader(o9[8])
@@ -887,7 +927,7 @@ def replay(ctx, rep, prop):
         elif ser == "fish-percent":
             check_other_series(ctx, [])
         elif ser == "row":
-            rows = [r for r in country_rows(ctx) if r["iso3"] == case["iso3"]]
+            rows = [None] if case["iso3"] == "WOR" else [r for r in country_rows(ctx) if r["iso3"] == case["iso3"]]
             check_real_rows(ctx, rows, [case["option"]], prop)
         new = [x for x in ctx.violations[before:] if x["key"] == v["key"]]
         if new:
